@@ -75,6 +75,22 @@ def replay(case):
                 H = np.asarray(f.hessian(t), dtype=float)
                 if H.shape != (dim, dim) or any(not close(H[j, l], hess[j][l]) for j in range(dim) for l in range(dim)):
                     out.append(('%s:hessian' % fam, 'hessian(t) differs from the true Hessian (cfg %r)' % (_short(cfg),)))
+            # evaluation points given with an integer dtype (lattice data) or as a list of Python ints
+            if np.all(t == np.round(t)) and fam != 'bspline':
+                for tag, ti in (('int-array', t.astype(np.int64)), ('int-list', [int(v) for v in t])):
+                    gi = np.asarray(f.gradient(ti), dtype=float)
+                    if gi.shape != (dim,) or any(not close(gi[j], grad[j]) for j in range(dim)):
+                        out.append(('%s:gradient:%s' % (fam, tag), 'gradient at an integer-typed point = %r, expected %r (cfg %r)' % (gi, grad, _short(cfg))))
+                    vi = float(f(ti))
+                    if not close(vi, val):
+                        out.append(('%s:value:%s' % (fam, tag), 'f at an integer-typed point = %r, expected %r (cfg %r)' % (vi, val, _short(cfg))))
+                    pi = [float(f.partial(ti, j)) for j in range(dim)]
+                    if any(not close(pi[j], grad[j]) for j in range(dim)):
+                        out.append(('%s:partial:%s' % (fam, tag), 'partial at an integer-typed point = %r, expected %r (cfg %r)' % (pi, grad, _short(cfg))))
+                    if fam not in ('pgauss', 'bspline'):
+                        Hi = np.asarray(f.hessian(ti), dtype=float)
+                        if Hi.shape != (dim, dim) or any(not close(Hi[j, l], hess[j][l]) for j in range(dim) for l in range(dim)):
+                            out.append(('%s:hessian:%s' % (fam, tag), 'hessian at an integer-typed point differs (cfg %r)' % (_short(cfg),)))
             # the returned arrays are the derivatives at t - also after the object has been evaluated at another point
             # (a result must not be a buffer that a later call overwrites)
             g_ret = f.gradient(t)
